@@ -151,6 +151,11 @@ Proof.
   - (* EqJunk *) fin.
   - (* OrMap *) bind_conv.
   - (* ROrMap *) bind_conv.
+  - (* ViewKeys *) fin.
+  - (* ViewValues *) bind_conv.
+  - (* ViewItems *) bind_conv.
+  - (* DictOf *) bind_conv.
+  - (* Truth *) fin.
   - (* UpdateBad *) apply rel_state_op. apply sim_upd_pairs. exact Hp.
   - (* UpdateExtendBad *)
     destruct (sim_add_all l p Hp) as [H1 H2]. unfold rel_op. rewrite H2.
